@@ -38,6 +38,9 @@ type Scenario struct {
 	BannerPos    int
 	BannerText   string
 	BannerOffset int
+	// Path of the lock file of this device; the simulator probes it on every
+	// received line (C12).
+	LockFile string
 }
 
 type Device struct {
@@ -51,6 +54,10 @@ type Device struct {
 	noecho  bool
 	started bool
 	partial string // incomplete line
+	// Probe reports whether the device lock is free; LockFree is set if it
+	// ever was while a line was received.
+	Probe    func() bool
+	LockFree bool
 }
 
 func NewDevice(sc *Scenario) *Device {
@@ -113,6 +120,9 @@ func (d *Device) Send(s string) string {
 func (d *Device) recvLine(line string) {
 	idx := d.NRecv
 	d.NRecv++
+	if d.Probe != nil && d.Probe() {
+		d.LockFree = true
+	}
 	d.Sent = append(d.Sent, line)
 	fault := FaultNone
 	if idx == d.Sc.FaultPos {
